@@ -140,9 +140,8 @@ Opt(n) ==
       [] Tier = "thorough" ->
            CASE n = 2 -> {Fam({1, 2, 3}, 3, "any", {FALSE}, "any", B1All, 100000)}
              [] n = 3 -> {Fam({1, 2}, 1, "any", {FALSE}, "topall", {"none"}, 100000),
-                          Fam({1, 2}, 5, "spin", {FALSE}, "all", {"none"}, 100000),
                           Fam({1, 2}, 1, "any", {TRUE}, "all", {"none"}, 100000),
-                          Fam({2, 3}, 0, "spin", {FALSE}, "all", {"none"}, 2000),
+                          Fam({2, 3}, 0, "spin", {FALSE}, "all", {"none"}, 1500),
                           Fam({2}, 0, "any", {FALSE}, "none", B1All, 100000)}
              [] n = 4 -> {Fam({1, 2}, 1, "spin", {FALSE}, "none", {"none"}, 2500)}
              [] OTHER -> {}
